@@ -105,6 +105,9 @@ func (h *Hist) noteTouched(b *Batch, path string, id int) {
 		return
 	}
 	for _, kv := range b.Ops {
+		if len(kv.K) > 4096 {
+			continue
+		}
 		k := path + "\x00" + string(kv.K) + "\x00" + kv.Op
 		h.touched[k] = append(h.touched[k], id)
 	}
